@@ -38,14 +38,26 @@ ASSUME = ["the Linux x86_64 utmpx, acct_v3 (pacct) and lastlog layouts are synth
           "chrono's accepted range of epoch seconds in FixedStruct::new is a measured constant of the model (cross-checked by `fixed`)"]
 
 
+def user_of(i):
+    """every fourth record's ut_user fills all 32 bytes of the field (glibc does not NUL-terminate a name of maximal length): the printed value
+    must stop at the field's end (seeded change C08-e read on into ut_host)"""
+    u = b'user%d' % i
+    return u.ljust(32, b'u') if i % 4 == 3 else u
+
+
+def line_of(i):
+    ln = b'pts/%d' % i
+    return ln.ljust(32, b'l') if i % 8 == 7 else ln
+
+
 def rec(i, sec, usec, typ=7):
     b = bytearray(384)
     struct.pack_into('<h', b, 0, typ)
     struct.pack_into('<i', b, 4, 1000 + i)
-    line = b'pts/%d' % i
+    line = line_of(i)
     b[8:8 + len(line)] = line
     b[40:44] = b'%04d' % (i % 10000)
-    user = b'user%d' % i
+    user = user_of(i)
     b[44:44 + len(user)] = user
     host = b'host%d.example' % i
     b[76:76 + len(host)] = host
@@ -125,7 +137,7 @@ def analyse(times, a, b, args, rc, out, err, data, kind):
         i = int(m.group(2)) - 1000
         idxs.append(i)
         s, u = times[i] if 0 <= i < len(times) else (None, None)
-        own = (m.group(3) == b'pts/%d' % i and m.group(5) == b'user%d' % i and m.group(6) == b'host%d.example' % i
+        own = (m.group(3) == line_of(i) and m.group(5) == user_of(i) and m.group(6) == b'host%d.example' % i
                and int(m.group(10)) == s and int(m.group(11)) == u and m.group(1) == b'USER_PROCESS')
         if not own:
             fails.append({'signature': 'fixedstruct:line-shows-foreign-field-values', 'detail': repr(l[:300]), 'case': desc})
